@@ -87,5 +87,8 @@ InteriorNsm(cs) == \E i \in 1..Len(cs) : \E j \in (i + 1)..Len(cs) : cs[i] = "NS
 ClassesOf(W, s) == [i \in 1..Len(s) |-> W.u[s[i]].bidi]
 HasRtl(W, s) == HasRtlClasses(ClassesOf(W, s))
 \* the directionality rule of the username profiles (usernames.rs:46-58)
-DirectionalityOk(W, s) == HasRtl(W, s) => RfcBidi(ClassesOf(W, s))
+\* W.dev is the set of named deviations switched on (empty = the property as stated);
+\* "bidi_nsm_strict" makes the rule behave like the scan of the code as it is today.
+DirectionalityOk(W, s) ==
+  HasRtl(W, s) => (IF "bidi_nsm_strict" \in W.dev THEN ScanBidi(TRUE, ClassesOf(W, s)) ELSE RfcBidi(ClassesOf(W, s)))
 =============================================================================
